@@ -50,6 +50,8 @@ Explain(full) ==
     CASE Ev.op = "reset" -> Reset
       [] Ev.op = "new" ->
             /\ NewS(Ev.d, Ev.b) /\ uid' = Ev.post.uid /\ UPart(full, NewU(Ev.d, Ev.b)) /\ PostMatches
+      [] Ev.op = "default" ->
+            /\ DefaultS(Ev.d) /\ UPart(full, UidUnchanged) /\ Ev.outcome = "ok" /\ PostMatches
       [] Ev.op = "insert" ->
             /\ InsertS(Ev.d, Ev.p, Ev.b) /\ uid' = Ev.post.uid /\ UPart(full, InsertU(Ev.d, Ev.p, Ev.b))
             /\ Ev.ret = nextRef /\ PostMatches
